@@ -133,7 +133,13 @@ func checkTransport(c TCase) *vfrun.Failure {
 						continue
 					}
 					vfrun.Eval()
-					if f := runTransportPoint(s, c, pt); f != nil {
+					f := runTransportPoint(s, c, pt)
+					for retry := 0; f != nil && f.Key == "harness.inconclusive" && retry < 2; retry++ {
+						vfrun.Label("inconclusive-point-retried")
+						time.Sleep(500 * time.Millisecond)
+						f = runTransportPoint(s, c, pt)
+					}
+					if f != nil {
 						if vfrun.IsKnown(f.Key) {
 							continue
 						}
